@@ -42,3 +42,44 @@ VALIDATION_OPTIONAL = {"section_repository_present", "property_terminology_check
 # ---------------------------------------------------------------------------
 # dtypes whose values are plain text and fall back to the string converter.
 STRING_KIND_DTYPES = {"string", "text", "url", "person"}
+
+# ---------------------------------------------------------------------------
+# (b) parameter kinds the code does not establish by an isinstance test that the
+# analysis can see (one reason per entry).  key: (function short name, parameter)
+PARAM_KINDS = {
+    # called through getattr(self, 'parse_' + tag)(node, self.tags[tag]); tags maps names to format objects
+    ("tools.xmlparser.XMLReader.parse_tag", "fmt"): ("fmt:Document", "fmt:Section", "fmt:Property"),
+    ("tools.xmlparser.XMLReader.parse_odML", "fmt"): ("fmt:Document",),
+    ("tools.xmlparser.XMLReader.parse_section", "fmt"): ("fmt:Section",),
+    ("tools.xmlparser.XMLReader.parse_property", "fmt"): ("fmt:Property",),
+    ("tools.xmlparser.XMLReader.check_mandatory_arguments", "arg_class"): ("fmt:Document", "fmt:Section", "fmt:Property"),
+    ("tools.xmlparser.XMLReader.is_valid_argument", "arg_class"): ("fmt:Document", "fmt:Section", "fmt:Property"),
+    ("tools.dict_parser.DictReader.is_valid_attribute", "fmt"): ("fmt:Document", "fmt:Section", "fmt:Property"),
+    # validated by self._validate_parent (a helper returning an isinstance test)
+    ("section.BaseSection.parent.setter", "new_parent"): ("BaseSection", "BaseDocument", "None"),
+    ("property.BaseProperty.parent.setter", "new_parent"): ("BaseSection", "None"),
+    # public API documented to take a Section / Property
+    ("section.BaseSection.merge", "section"): ("BaseSection", "None"),
+    ("section.BaseSection.merge_check", "source_section"): ("BaseSection",),
+    ("section.BaseSection.unmerge", "section"): ("BaseSection",),
+    ("property.BaseProperty.merge", "other"): ("BaseProperty",),
+    ("property.BaseProperty.merge_check", "source"): ("BaseProperty",),
+    ("base.Sectionable.get_relative_path", "section"): ("BaseSection",),
+    ("base.Sectionable.remove", "section"): ("BaseSection",),
+    ("base.Sectionable.contains", "obj"): ("BaseSection",),
+    # the XML writer walks odML objects
+    ("tools.xmlparser.XMLWriter.save_element", "curr_el"): ("BaseDocument", "BaseSection", "BaseProperty"),
+    ("tools.xmlparser.XMLWriter.__init__", "odml_document"): ("BaseDocument",),
+    ("tools.dict_parser.DictWriter.to_dict", "odml_document"): ("BaseDocument",),
+    ("tools.odmlparser.ODMLWriter.write_file", "odml_document"): ("BaseDocument",),
+    ("tools.odmlparser.ODMLWriter.to_string", "odml_document"): ("BaseDocument",),
+    ("validation.Validation.__init__", "obj"): ("BaseDocument", "BaseSection", "BaseProperty"),
+    ("validation.Validation.validate", "obj"): ("BaseDocument", "BaseSection", "BaseProperty"),
+    ("validation.section_unique_ids", "parent"): ("BaseDocument", "BaseSection"),
+    ("validation.property_unique_ids", "section"): ("BaseSection",),
+    ("validation.object_unique_names", "obj"): ("BaseDocument", "BaseSection"),
+    ("validation._cardinality_validation", "obj"): ("BaseSection", "BaseProperty"),
+    ("tools.rdf_converter.RDFWriter.save_document", "doc"): ("BaseDocument",),
+    ("tools.rdf_converter.RDFWriter.save_section", "sec"): ("BaseSection",),
+    ("tools.rdf_converter.RDFWriter.save_property", "prop"): ("BaseProperty",),
+}
